@@ -27,14 +27,19 @@ HistOfMult(mult, maxC) == [c \in 1..maxC |-> Cardinality({x \in DOMAIN mult : mu
 \* The same through run lengths of the sorted list (n log n; used on recorded executions).
 \* S = {<<km, i>>} enumerates in TLC's value order, which groups equal k-mers; the grouping is
 \* CHECKED (GroupedOK) rather than assumed.
-RunInfo(L) ==
-   LET S == {<<L[i], i>> : i \in 1..Len(L)}
-       seq == SetToSeq(S)
+\* S is a set of pairs <<km, tag>> with one pair per window (tags distinct per k-mer occurrence)
+RunInfoOfSet(S) ==
+   LET seq == SetToSeq(S)
        n == Len(seq)
        starts == {i \in 1..n : IF i = 1 THEN TRUE ELSE seq[i][1] # seq[i - 1][1]}
        ss == SetToSortSeq(starts, <)
        lens == [j \in 1..Len(ss) |-> (IF j = Len(ss) THEN n + 1 ELSE ss[j + 1]) - ss[j]]
    IN [lens |-> lens, grouped |-> Cardinality({seq[s][1] : s \in starts}) = Cardinality(starts)]
+RunInfo(L) == RunInfoOfSet({<<L[i], i>> : i \in 1..Len(L)})
+\* all windows of all reads as such a set, without building one long list (reads can be many)
+WindowSet(reads, k, rc) ==
+   UNION {LET obs == ObsList(reads[r], <<>>, k, rc, "none", 0) IN {<<obs[i].km, <<r, i>>>> : i \in 1..Len(obs)} :
+          r \in 1..Len(reads)}
 HistOfRuns(lens, maxC) == [c \in 1..maxC |-> Cardinality({j \in 1..Len(lens) : lens[j] = c})]
 
 \* truncation: keep multiplicities 1..last c with counts[c] >= MinFreq (empty if none)
